@@ -43,7 +43,7 @@ def _pairs(tier, seed):
 
 def cases(tier, seed):
     q = tier == "quick"
-    per = {"generic": 40, "systematic": 20, "ldpc": 40, "cyclic": 6, "hamming": 4, "bch": 1, "rm": 3, "golay": 1, "*": 4}
+    per = {"generic": 40, "systematic": 20, "ldpc": 40, "cyclic": 6, "hamming": 4, "bch": 1, "rm": 1, "golay": 1, "*": 4}
     cur_f, cur, idx = None, [], 0
     for spec in _pairs(tier, seed):
         lim = per.get(spec[0], per["*"])
@@ -73,6 +73,10 @@ def cost(p):
     if fam == "bch":
         mu = 6 if ("mu=6" in cfg or "(63," in cfg) else 5 if ("mu=5" in cfg or "(31," in cfg) else int(prm.get("mu", 4))
         return 10 ** mu * len(p["specs"])
+    if fam == "rm":
+        return 10 ** 5 * (int(prm.get("m", 3)) - 2)
+    if fam == "cyclic":
+        return (3000 if "n=21" in cfg else 1000 if "n=15" in cfg else 10) * len(p["specs"])
     return len(p["specs"])
 
 
